@@ -288,7 +288,7 @@ class BeltStore(Store):
 
             # 6) Compute new insertion index
            
-            insert_idx = len(self.ready_items) - len(self.reserved_events) - 1
+            insert_idx = len(self.reserved_events)
             
             # 7) Re‑insert it
             self.ready_items.insert(insert_idx, item)
